@@ -1171,8 +1171,14 @@ func (w *world) pairs(full bool, per int) {
 	}
 	for _, pi := range pick(len(simple)) {
 		p := simple[pi]
-		if p.Kind == "include" {
-			continue
+		multi := false
+		for l := range w.sOf(p, p) {
+			if l.File != p.File {
+				multi = true
+			}
+		}
+		if multi {
+			continue // included modules are the single directives' business
 		}
 		kps := [][2]string{kindsPairs[1+w.r.Intn(3)]}
 		if full {
